@@ -10,7 +10,7 @@ RULE = ("responses as in C02, packetised, written to a scripted net.Conn that de
         "a timeout style error; the real reader goroutine runs; the sequence of NextPackage results up to the first error and the elapsed time are compared with the model's prefix. "
         "Drain API: the same failure offsets with a consumer that reads up to the final DONE (NextPackageUntil without callback): one success per final DONE completely received, then the transport error, never the end-of-response signal (fn 17). "
         "Write side: a package is sent through a transport that accepts k bytes and then fails (every k for short messages): error iff k < wire length, accepted bytes = prefix of the model's wire. "
-        "Non-trivial = input longer than 40 characters; distinct by input.")
+        "Non-trivial = input longer than 40 characters; distinct by input. Failing writes also on a connection whose read side has ended before (peer closed the idle connection, the reader has filled the connection's error queue): the failing write must still return at once (write-fail;reader-ended).")
 ASSUMPTIONS = ASSUMPTIONS_COMMON + ["elapsed time until the error is observed by the harness against the configured read timeout (bounded wait), not proved",
                                     "failure during a request write: the tx model (C01) gives the complete wire; the harness checks on the real Channel that the send reports an error exactly when the failure falls inside the message and that what the transport accepted is a prefix of that wire (fn 13); no separate theorem"]
 LEVEL_TEXT = ("C14_prefix_then_failure / C14_every_complete_packet: for EVERY stream and EVERY failure offset the reader yields exactly the packets completely contained in the bytes received, then the failure; "
